@@ -142,7 +142,7 @@ def _child(case: Dict[str, Any]) -> Dict[str, Any]:
             from rp2verif import sheets as S
             from rp2verif.seams import parser as P
 
-            ini = P.write_ini(S.ini_text(S.canonical_layout()))
+            ini = P.write_ini(S.ini_text(S.canonical_layout(), **case.get("ini_kw", {})))
             cfg = Configuration(ini, C.country(cc), fd or MIN_DATE, td or MAX_DATE, case.get("allow_negative", True))
             doc = P.build_doc(case["sheets"])
             for asset in sorted(case["sheets"]):
